@@ -132,6 +132,13 @@ def register(R):
     return VBool(th.is_self(kp.arr[kp.lo + j]))
 
   @R.spec
+  def key_usable(it, a, k):
+    '''hashable (usable as a dict key) and not an Index'''
+    kp, j = a[0], it.to_int(a[1])
+    e = kp.arr[kp.lo + j]
+    return VBool(z3.And(th.khash(e), th.kkind(e) != th.K_INDEX))
+
+  @R.spec
   def key_int(it, a, k):
     kp, j = a[0], it.to_int(a[1])
     return VInt(th.kint(kp.arr[kp.lo + j]))
@@ -157,6 +164,21 @@ def register(R):
     H, _ = heap(it)
     return VBool(th.rdok(H, node(it, a[0]), a[1].arr, a[1].hi, a[1].lo))
 
+  @R.spec
+  def one_step_ok(it, a, k):
+    '''a key path of length one whose key the root container accepts: a hashable key on a dict, an index inside (or
+    one past the end of) a list, an index inside a tuple - such a set must not fail'''
+    t, kp = node(it, a[0]), a[1]
+    H, _ = heap(it)
+    key = kp.arr[kp.lo]
+    n = th.h_len(H)[t]
+    i = th.kint(key)
+    return VBool(z3.And(
+        kp.hi - kp.lo == 1, th.kkind(key) != th.K_RESERVED,
+        z3.Or(z3.And(th.tkind(t) == th.T_DICT, th.khash(key)),
+              z3.And(th.tkind(t) == th.T_LIST, th.kisint(key), -n <= i, i <= n, n >= 0),
+              z3.And(th.tkind(t) == th.T_TUPLE, th.kisint(key), -n <= i, i < n))))
+
   region = {'S0': lambda it, env: it.default_region()}
   WIT = {'path_len': 'len(key_path)', 'kind0': 'key_kind(key_path, 0)', 'self0': 'key_is_self(key_path, 0)', 'int0': 'key_int(key_path, 0)',
          'kind1': 'key_kind(key_path, 1)', 'self1': 'key_is_self(key_path, 1)', 'int1': 'key_int(key_path, 1)'}
@@ -166,7 +188,9 @@ def register(R):
       f'{TR}::_default_tree', P, types=dict(key_path='keypath', value='tree'), ret='tree',
       ghost={'S0': 'region'}, site_ghost=region, modifies=['theap'], witness=WIT,
       requires=['region_ok(S0)', 'in_region(S0, value)'],
-      may_raise=['ValueError', 'TypeError'],
+      # it fails only for a non-empty path that does not start with SELF (and then only for a non-zero index or an unusable key)
+      raises_ensures={e: ['len(key_path) > 0 and not is_self_key(head(key_path))',
+                          'not (len(key_path) == 1 and key_kind(key_path, 0) == 0 and key_usable(key_path, 0))'] for e in ('ValueError', 'TypeError')},
       ensures=[
           'frame_ok()',
           'region_ok(grown(S0))', 'in_region(grown(S0), result)',
@@ -182,13 +206,16 @@ def register(R):
       types=dict(self='TreeMapView', tree='tree', key_path='keypath', value='tree', in_place='bool'), ret='tree',
       ghost={'S0': 'region'}, site_ghost=region, modifies=['theap'], witness=dict(WIT, tree_kind='t_kind(tree)'),
       requires=['not in_place', 'region_ok(S0)', 'in_region(S0, tree)', 'in_region(S0, value)'],
-      may_raise=RAISES,
+      # no spurious failure: an empty / SELF path never fails, nor does a one-key path the root container accepts
+      raises_ensures={e: ['len(key_path) > 0 and not is_self_key(head(key_path))', 'not old(one_step_ok(tree, key_path))'] for e in RAISES},
       ensures=[
           # the original is untouched at every depth
           'frame_ok()',
           'region_ok(grown(S0))', 'in_region(grown(S0), result)',
           # an empty path / SELF replaces the root by the value itself
           'implies(len(key_path) == 0 or is_self_key(head(key_path)), result is value)',
+          # a strict view never grows a missing branch (it raises instead)
+          'not (self.strict and t_kind(tree) == 4 and len(key_path) > 0 and not is_self_key(head(key_path)))',
           # get after set
           'implies(plain_path(key_path), reads_back(grown(S0), result, key_path, value))',
           # every other entry of the copied root is the same object as before, and the root keeps its kind
@@ -231,7 +258,8 @@ def register(R):
       f'{TR}::TreeMapView.set', P, variant='single', when=lambda it, a, k: isinstance(a[1], VKeyPath),
       types=dict(self='TreeMapView', keys='keypath', values='tree', in_place='bool'), ret='TreeMapView',
       ghost={'S0': 'region'}, site_ghost=region, modifies=['theap'],
-      requires=SET_REQ + ['not in_place', 'in_region(S0, values)'], may_raise=RAISES,
+      requires=SET_REQ + ['not in_place', 'in_region(S0, values)'],
+      raises_ensures={e: ['len(keys) > 0 and not is_self_key(head(keys))', 'not old(one_step_ok(self.data, keys))'] for e in RAISES},
       ensures=['frame_ok()', 'region_ok(grown(S0))', 'in_region(grown(S0), result.data)', 'result is not self', 'self.data is old(self.data)',
                'implies(plain_path(keys), reads_back(grown(S0), result.data, keys, values))',
                'implies(len(keys) > 0 and plain_path(keys) and not is_self_key(head(keys)) and t_kind(self.data) != 4,'
@@ -250,7 +278,8 @@ def register(R):
       f'{TR}::TreeMapView.copy_and_set', P,
       types=dict(self='TreeMapView', keys='keypath', values='tree'), ret='TreeMapView',
       ghost={'S0': 'region'}, site_ghost=region, modifies=['theap'],
-      requires=SET_REQ + ['in_region(S0, values)'], may_raise=RAISES,
+      requires=SET_REQ + ['in_region(S0, values)'],
+      raises_ensures={e: ['len(keys) > 0 and not is_self_key(head(keys))', 'not old(one_step_ok(self.data, keys))'] for e in RAISES},
       ensures=['frame_ok()', 'region_ok(grown(S0))', 'in_region(grown(S0), result.data)', 'result is not self', 'self.data is old(self.data)',
                'implies(plain_path(keys), reads_back(grown(S0), result.data, keys, values))',
                'implies(len(keys) > 0 and plain_path(keys) and not is_self_key(head(keys)) and t_kind(self.data) != 4,'
